@@ -412,8 +412,34 @@ func ruleTagRound6(c *Ctx) {
 				}
 			}
 		}
-		c.Oblige("G.quote", tests && len(callsTo(f, "strconv.Quote")) > 0, f.Pos(), "cmd/plenctag.quote", "a text containing a backquote is written as an interpreted string",
-			"the new literal is written between backquotes; an existing tag value that contains a backquote (legal in an interpreted string literal) then ends the literal early and the file no longer parses - such a text must go through strconv.Quote", nil)
+		// the language's own test: strconv.CanBackquote (no backquote, no control character
+		// other than tab - a raw string drops carriage returns -, valid UTF-8, no BOM)
+		canBQ := false
+		for _, call := range callsTo(f, "strconv.CanBackquote") {
+			conds := map[ssa.Value]bool{}
+			for _, q := range callsTo(f, "strconv.Quote") {
+				cs, ts := controllingConds(q.Block())
+				for i, cd := range cs {
+					v, t := cd, ts[i]
+					for {
+						u, ok := v.(*ssa.UnOp)
+						if !ok || u.Op != token.NOT {
+							break
+						}
+						v, t = u.X, !t
+					}
+					if v == ssa.Value(call) && !t {
+						conds[v] = true
+					}
+				}
+			}
+			if conds[call] {
+				canBQ = true
+			}
+		}
+		_ = tests
+		c.Oblige("G.quote", canBQ, f.Pos(), "cmd/plenctag.quote", "a text that cannot be a raw string is written as an interpreted string",
+			"the new literal is written between backquotes only when strconv.CanBackquote says the text survives there: a backquote ends the literal early, a carriage return is dropped from a raw string by the language, NUL / invalid UTF-8 / a BOM are rejected by the scanner - such a text must go through strconv.Quote (reached on the false branch of CanBackquote)", nil)
 	}
 	// the rewrite closure
 	var rf *ssa.Function
